@@ -65,11 +65,13 @@ SHAPES = {
     'csv-old-oddname-twosettings': {'layout': 'old', 'rules': 'csv', 'cfg_name': 'cfg-2025', 'altsettings': True, 'both_settings': True, 'only': ('migrate',)},
     'csv-old-twosettings': {'layout': 'old', 'rules': 'csv', 'altsettings': True, 'both_settings': True, 'only': ('migrate',)},
     'csv-old-oddname':    {'layout': 'old', 'rules': 'csv', 'cfg_name': 'cfg-2025', 'only': ('migrate',)},
+    # config/ is a symbolic link to a folder of another name kept elsewhere in the budget (store/realcfg): the budget folder is the parent of the LINK
+    'csv-old-symlinked-config': {'layout': 'old', 'rules': 'csv', 'symlink_config': True, 'only': ('migrate', 'init')},
 }
 COMMANDS = ['migrate', 'init', 'update']
 QUICK = [('csv-old', 'migrate'), ('csv-old-bak', 'init'), ('csv-old-output', 'update'), ('csv-new', 'migrate'), ('csv-old-commented-key', 'migrate'),
          ('rules-old-absdata', 'update'), ('csv-old', 'migrate', 'other-filesystem'), ('csv-old-empty-key', 'migrate'), ('csv-old-altsettings', 'migrate'),
-         ('csv-old-commented-key', 'init'), ('rules-old-symlink-data', 'update'), ('csv-old-oddname', 'migrate'), ('csv-old-manybaks', 'migrate'), ('csv-old-explicit-csv', 'migrate'), ('csv-old-explicit-csv', 'init'), ('csv-old-stray-norules', 'migrate'), ('csv-old-oddname-twosettings', 'migrate')]
+         ('csv-old-commented-key', 'init'), ('rules-old-symlink-data', 'update'), ('csv-old-oddname', 'migrate'), ('csv-old-symlinked-config', 'migrate'), ('csv-old-manybaks', 'migrate'), ('csv-old-explicit-csv', 'migrate'), ('csv-old-explicit-csv', 'init'), ('csv-old-stray-norules', 'migrate'), ('csv-old-oddname-twosettings', 'migrate')]
 OTHER_FS = '/dev/shm'        # a file system other than the one holding the system temp directory (if this machine has one)
 
 
@@ -77,7 +79,11 @@ def build(root, shape):
     sp = SHAPES[shape]
     base = os.path.join(root, 'tally') if sp['layout'] == 'new' else root
     cfg = os.path.join(base, sp.get('cfg_name', 'config'))
-    os.makedirs(cfg)
+    if sp.get('symlink_config'):
+        os.makedirs(os.path.join(base, 'store', 'realcfg'))
+        os.symlink(os.path.join('store', 'realcfg'), cfg)
+    else:
+        os.makedirs(cfg)
     if sp.get('symlink_data'):
         ext = os.path.join(os.path.dirname(root), os.path.basename(root) + '-elsewhere', 'statements')
         shutil.rmtree(os.path.dirname(ext), ignore_errors=True)
@@ -198,7 +204,7 @@ def _classification_default(root, odd):
     return {'map': m}
 
 
-def classification(root, _both=False):
+def classification(root, _both=False, extra=()):
     """`tally up` as the user would run it from the budget root (auto-detected config dir), fresh process."""
     alt = ['--settings', ALT] if (os.path.exists(os.path.join(root, 'config', ALT)) or os.path.exists(os.path.join(root, 'tally', 'config', ALT))) else []
     odd = [n for n in ('cfg-2025',) if os.path.isdir(os.path.join(root, n))]      # a config folder tally cannot find by itself is named on the command line
@@ -211,7 +217,7 @@ def classification(root, _both=False):
         if one != two:
             return {'failed': 'the two settings files of the budget classify differently', 'with settings-2024.yaml': one, 'with settings.yaml': two}
         return one
-    p = B.tally(root, 'up', *odd, *alt, '--format', 'json', '-v', '-q')
+    p = B.tally(root, 'up', *odd, *alt, *extra, '--format', 'json', '-v', '-q')
     if p.returncode != 0:
         return {'failed': (p.stderr or p.stdout).strip().splitlines()[-1][:120] if (p.stderr or p.stdout).strip() else 'exit %d' % p.returncode}
     try:
@@ -237,6 +243,24 @@ def run_injected(root, args, at, mode, log):
 
 
 def judge_point(rec, shape, cmd, k, mode, eff_k, baseline, tmp, log):
+    ctx = {}
+    if _judge_point(rec, shape, cmd, k, mode, eff_k, baseline, tmp, log, ctx) == 'skip':
+        return
+    baseline = ctx.get('expected', baseline)       # (a rule added to the CSV in the meantime is part of the budget now)
+    sp = SHAPES[shape]
+    if cmd in ('migrate', 'init') and sp['rules'] == 'csv' and not sp.get('both_settings') and 'map' in baseline:
+        # whatever state the budget is in now: a run that is ASKED to migrate (`tally up --migrate`) either migrates or carries on with the rules in use -
+        # the report of that very run classifies as the untouched budget did
+        root = os.path.join(tmp, 'run')
+        o = classification(root, extra=('--migrate',))
+        rec.count('migrating_rerun_reports_checked')
+        if o != baseline:
+            rec.violation('migrating-rerun-reports-another-classification:%s/%s' % (cmd, mode.split(':')[0]), f'{shape}: after `{cmd}` with {mode} at effect {k} ({eff_k}) and the checks '
+                          f'above, `tally up --migrate` reports {o}; untouched budget: {baseline}; files: {sorted(contents(root))}',
+                          {'kind': 'point', 'shape': shape, 'cmd': cmd, 'k': k, 'mode': mode, 'effect': eff_k})
+
+
+def _judge_point(rec, shape, cmd, k, mode, eff_k, baseline, tmp, log, ctx):
     root = os.path.join(tmp, 'run')
     shutil.rmtree(root, ignore_errors=True)
     os.makedirs(root)
@@ -253,7 +277,7 @@ def judge_point(rec, shape, cmd, k, mode, eff_k, baseline, tmp, log):
         rec.interesting([shape, cmd, k, mode])
     if mode.startswith('crash') and p.returncode != 137:
         rec.unsure(f'{shape}/{cmd}: injection k={k} {mode} did not fire (exit {p.returncode})')
-        return
+        return 'skip'
     step = '%s@%s' % (eff_k['kind'], os.path.basename(eff_k.get('path') or '') or 'x')
     # (a) content preservation
     after = contents(root)
@@ -265,7 +289,7 @@ def judge_point(rec, shape, cmd, k, mode, eff_k, baseline, tmp, log):
         if (rel.endswith('settings.yaml') or rel.endswith(ALT)) and any(v.startswith(data) for v in after.values()):
             continue
         rec.violation('content-lost:%s/%s/%s' % (cmd, step, mode), f'{shape}: after {mode} at effect {k} ({eff_k}), the content of {rel} exists nowhere in the tree', case)
-        return
+        return 'skip'
     # (b)/(c) classification now, and after a plain re-run of the same command
     rec.count('classification_checks')
     o1 = classification(root, _both=bool(SHAPES[shape].get('both_settings')))
@@ -283,6 +307,7 @@ def judge_point(rec, shape, cmd, k, mode, eff_k, baseline, tmp, log):
             B.tally(root, *args)
             o3 = classification(root, _both=bool(SHAPES[shape].get('both_settings')))
             want = dict(baseline['map'], **{'SOME UNKNOWN VENDOR': ['Added', 'Cat']})
+            ctx['expected'] = {'map': want}
             rec.count('rule_added_between_interrupted_and_repeated_run_checks')
             if o3.get('map') != want:
                 rec.violation('rule-added-after-interruption-not-in-effect:%s/%s' % (cmd, step), f'{shape}: crash at effect {k} ({eff_k}) left a converted merchants.rules beside the CSV '
